@@ -120,6 +120,44 @@ pub fn fault_case(lib: &mut Lib, before: &Dataset, after: &Dataset, sample: &[u6
             inside += 1;
         }
     }
+    // The same at the level of the file: failures of the operating-system writes underneath the
+    // writer's buffer, the last of which is made by the final flush. All of them are enumerated
+    // (one per buffer-full of dump).
+    ferrous::verif::rdb_file_reset_writes();
+    probe.save(&e).map_err(|x| (format!("counting save failed: {}", x), "infra".to_string(), 0))?;
+    let fw = ferrous::verif::rdb_file_writes();
+    for n in 1..=fw {
+        ferrous::verif::rdb_file_fail_nth_write(n);
+        let via_bgsave = n % 2 == 0;
+        let reported = if via_bgsave {
+            if let Err(x) = rdb.bgsave(e.clone()) {
+                ferrous::verif::rdb_file_fail_nth_write(0);
+                return Err((format!("BGSAVE refused although no background save is running: {}", x), "bgsave-refused".into(), n));
+            }
+            if !wait_flag_clear(&rdb, Duration::from_secs(5)) {
+                ferrous::verif::rdb_file_fail_nth_write(0);
+                return Err((format!("after a background save whose file write {} of {} failed, the in-progress flag never clears", n, fw), "flag-stuck-after-error".into(), n));
+            }
+            true
+        } else {
+            rdb.save(&e).is_err()
+        };
+        ferrous::verif::rdb_file_fail_nth_write(0);
+        if !reported {
+            return Err((format!("save reported success although file write {} of {} (the {}) failed", n, fw, if n == fw { "final flush of the buffered tail" } else { "flush of a full buffer" }), "failure-not-reported".into(), n));
+        }
+        match std::fs::read(&path) {
+            Ok(now) if now == b0 => {}
+            Ok(now) => {
+                return Err((
+                    format!("a save whose file write {} of {} failed ({}) changed the dump on disk: {} bytes before, {} bytes now", n, fw, if via_bgsave { "BGSAVE" } else { "SAVE" }, b0.len(), now.len()),
+                    "previous-dump-damaged".into(),
+                    n,
+                ))
+            }
+            Err(x) => return Err((format!("a save whose file write {} of {} failed removed the dump on disk: {}", n, fw, x), "previous-dump-damaged".into(), n)),
+        }
+    }
     // afterwards a save works and restores the current dataset
     rdb.save(&e).map_err(|x| (format!("after the injected failures a plain save fails: {}", x), "later-save-fails".to_string(), 0))?;
     dataset::flush_engine(&lib.dst);
@@ -129,7 +167,7 @@ pub fn fault_case(lib: &mut Lib, before: &Dataset, after: &Dataset, sample: &[u6
     if let Some(d) = dump::diff(&d1, &d2) {
         return Err((format!("the dump written after the injected failures differs from the dataset: {}", d), "later-save-wrong".into(), 0));
     }
-    Ok(FaultStats { writes: w, points: points.len() as u64, exhaustive: w <= 3000, inside_body: inside })
+    Ok(FaultStats { writes: w, points: points.len() as u64 + fw, exhaustive: w <= 3000, inside_body: inside })
 }
 
 // ---------------------------------------------------------------------------------------
@@ -451,7 +489,7 @@ pub fn run(tier: Tier, seed: u64, replay: Option<Value>) -> i32 {
         tier,
         seed,
         "fault_enumeration",
-        "A: for generated datasets, a complete save gives the bytes B0; the dataset is replaced; the write calls W of a save are counted through the hook; for EVERY n in 1..=W (all n while W <= 3000, else the first and last 100 and a generated sample of 100) the n-th write is made to fail - alternating io::Error in SAVE, io::Error in BGSAVE and a panic in the BGSAVE thread - and after each: the call reports failure, the file at the dump path is byte-identical to B0, the in-progress flag clears and a new BGSAVE is accepted; finally a plain save works and loads back to the current dataset. Non-trivial = a failure point strictly inside the body of a dump that differs from B0. B: generated (value type, TTL or not, sync point, 1..3 mutations, bystander keys): the save thread is parked before the key is read / between its value and TTL reads / inside the sorted-set encoder after the length, the mutations (grow, shrink, delete, replace by string, replace by another type, PERSIST, EXPIRE, delete+re-create) are applied recording every (value, TTL presence) state, the thread is released; the file must load and hold for the key one of the recorded states, and all bystanders. Non-trivial = the thread was actually parked and the key's state changed. C: valid dumps of generated small datasets -> every prefix and every single-byte substitution (position x {0x00, 0xFF, ^0x80, +1}) for files <= 4 KB, plus generated multi-byte damage; each loaded under catch_unwind, a 10 s watchdog and the counting allocator: Ok or Err, never a panic, no single allocation above 1 MiB + 64 x file length. Non-trivial = an input that passes the header check. Distinct by (dataset hash, n) / case hash / input hash",
+        "A: for generated datasets, a complete save gives the bytes B0; the dataset is replaced; the write calls W of a save are counted through the hook; for EVERY n in 1..=W (all n while W <= 3000, else the first and last 100 and a generated sample of 100) the n-th write is made to fail - alternating io::Error in SAVE, io::Error in BGSAVE and a panic in the BGSAVE thread - and after each: the call reports failure, the file at the dump path is byte-identical to B0, the in-progress flag clears and a new BGSAVE is accepted; then the same for EVERY operating-system write underneath the writer's buffer (hook below the BufWriter; the last one is the final flush of the buffered tail), alternating SAVE and BGSAVE; finally a plain save works and loads back to the current dataset. Non-trivial = a failure point strictly inside the body of a dump that differs from B0. B: generated (value type, TTL or not, sync point, 1..3 mutations, bystander keys): the save thread is parked before the key is read / between its value and TTL reads / inside the sorted-set encoder after the length, the mutations (grow, shrink, delete, replace by string, replace by another type, PERSIST, EXPIRE, delete+re-create) are applied recording every (value, TTL presence) state, the thread is released; the file must load and hold for the key one of the recorded states, and all bystanders. Non-trivial = the thread was actually parked and the key's state changed. C: valid dumps of generated small datasets -> every prefix and every single-byte substitution (position x {0x00, 0xFF, ^0x80, +1}) for files <= 4 KB, plus generated multi-byte damage; each loaded under catch_unwind, a 10 s watchdog and the counting allocator: Ok or Err, never a panic, no single allocation above 1 MiB + 64 x file length. Non-trivial = an input that passes the header check. Distinct by (dataset hash, n) / case hash / input hash",
     );
     ev.assumptions.push("crash points are write-call failures of a save (no fsync exists to lose); torn sectors are out of scope".into());
     if let Some(r) = replay {
